@@ -10,7 +10,7 @@ from harness import bridge, common, engine_ser
 def per_case(u, c, tp, val, kw, out, violate):
     from apischema import ValidationError, deserialize
 
-    if not c["bij"]:
+    if not c["bij"] or c["opts"].get("exn"):     # exclude_none is outside C05 (see MC_Ser!RoundTrip)
         return
     dkw = {k: v for k, v in kw.items() if k in ("aliaser", "additional_properties")}
     for label, data in (("roundtrip", out["raw"]), ("roundtrip-json", None)):
